@@ -28,7 +28,7 @@ def shards(tier):
 def check_case(run, fcp, sch, name, v, text, sig=None):
     from fcp import serde
 
-    case = {"schema": text, "struct": name, "value": v}
+    case = {"schema": text, "struct": name, "value": v, "description": sch.decls}
     want = ref.encode(sch, name, v)
     case["canonical"] = want
     try:
@@ -48,6 +48,11 @@ def check_case(run, fcp, sch, name, v, text, sig=None):
         return
     run.count("decode_compared")
     if not ref.same(d, v):
+        model, n = CC.signed_min_model(sch, ("struct", name), v)
+        if n and ref.same(d, model):
+            run.known_finding(CC.K_SIGNED_MIN, "decode(canonical bytes) returns +2^(N-1) for %d signed leaves holding -2^(N-1)" % n, {"struct": name, "value": v, "decoded": d})
+            run.case(sig=sig)
+            return
         case["decoded"] = d
         run.violation("decode(canonical bytes) != v", case)
         return
@@ -107,19 +112,4 @@ def replay(run, case):
     if res.is_err():
         run.violation("front end rejected the schema: %r" % (res.err(),), case)
         return
-    # rebuild the description-side view from the parsed text is not possible without fcp;
-    # the replay file therefore carries the canonical bytes computed at detection time.
-    from fcp import serde
-
-    name, v, want = case["struct"], case["value"], case["canonical"]
-    fcp = res.unwrap()
-    try:
-        b = bytes(serde.encode(fcp, name, v))
-        d = serde.decode(fcp, name, bytearray(want))
-    except Exception as e:
-        run.violation("codec raised %s: %s" % (type(e).__name__, e), case)
-        return
-    if b != want:
-        run.violation("encode(v) differs from the canonical wire bytes", dict(case, bytes=b))
-    elif not ref.same(d, v):
-        run.violation("decode(canonical bytes) != v", dict(case, decoded=d))
+    check_case(run, res.unwrap(), S.Sch(case["description"]), case["struct"], case["value"], case["schema"])
